@@ -11,4 +11,4 @@ INVARIANT ImplFollowsRef
 INVARIANT ImplAgreesOffHazards
 INVARIANT HazardShape
 INVARIANT Publish
-CHECK_DEADLOCK FALSE
+
